@@ -322,6 +322,8 @@ CHECKS['C18'] = dict(
     runs=[
         dict(h='h_c18.c', mode='nlsf', flavour='asan', n=64, args={'quick': ['random=3000'], 'thorough': ['random=900000']}, wraps=C18_WRAPS),
         dict(h='h_c18.c', mode='nlsfenc', flavour='asan', n={'quick': 640, 'thorough': 16000}, wraps=C18_WRAPS),
+        dict(h='h_c18.c', mode='lockstep', flavour='asan', n={'quick': 960, 'thorough': 24000}, wraps=C18_WRAPS),
+        dict(h='h_c18.c', mode='lockstep', flavour='asan-fixed', n={'quick': 320, 'thorough': 8000}, wraps=C18_WRAPS),
         dict(h='h_c18.c', mode='nlsfenc', flavour='asan-fixed', n={'quick': 320, 'thorough': 8000}, wraps=C18_WRAPS),
         dict(h='h_c18.c', mode='gains', flavour='asan', n=1, shards=1, wraps=C18_WRAPS),
         dict(h='h_c18.c', mode='pitch', flavour='asan', n=6, wraps=C18_WRAPS),
